@@ -566,7 +566,9 @@ func handleDeath(cs *coordState, p *Prop, seed uint64, w *worker, from, to int, 
 	_, died, lastErr := confirm(p, seed, idx, hang)
 	cs.mu.Lock()
 	defer cs.mu.Unlock()
-	if died == 3 && p.FatalIsViol {
+	if died == 3 && p.FatalNoClaim {
+		cs.agg.Probes["worker-died-inside-tool(no claim)"]++
+	} else if died == 3 && p.FatalIsViol {
 		sum := fatalSummary(lastErr)
 		cs.extra = append(cs.extra, ReplayFile{Property: p.ID, Seed: seed, RunIndex: idx, Kind: "fatal",
 			Violation: Violation{Class: "fatal:" + sum, Msg: fmt.Sprintf("worker process died in run %d in 3/3 fresh processes: %s", idx, sum)}})
